@@ -1111,6 +1111,11 @@ func pureCallbackParam(p *Program, f *FuncInfo, info *types.Info, call *ast.Call
 					if tv, ok := cl.Info().Types[x.Fun]; ok && tv.IsType() {
 						return true
 					}
+					// an accessor of the session store: it takes the store's own lock for a map look-up and calls nothing outside its package,
+					// which imports nothing of this module - so the only lock order is Hub.mu -> Store.mu and nothing there can wait (F48)
+					if leafStoreAccessor(p, p.CalleeInfo(cl.Info(), x), 2) {
+						return true
+					}
 					pure = false
 				case *ast.SendStmt, *ast.GoStmt, *ast.SelectStmt:
 					pure = false
@@ -1435,4 +1440,55 @@ func hubLookupParam(p *Program, g *FuncInfo, call *ast.CallExpr, sessions *types
 		}
 	}
 	return sites > 0
+}
+
+// leafStoreAccessor: fi is a function of internal/session whose body only takes mutexes, calls builtins, conversions, time / strings
+// functions or other such functions of its package, and has no channel operation or go statement; the package imports nothing of this module.
+func leafStoreAccessor(p *Program, fi *FuncInfo, depth int) bool {
+	if fi == nil || fi.Body == nil || fi.Pkg == nil || fi.Pkg.PkgPath != RepoPkg("internal/session") || depth < 0 {
+		return false
+	}
+	for imp := range fi.Pkg.Imports {
+		if strings.HasPrefix(imp, ModulePath) {
+			return false
+		}
+	}
+	info := fi.Info()
+	ok := true
+	ast.Inspect(fi.Body, func(n ast.Node) bool {
+		switch x := n.(type) {
+		case *ast.SendStmt, *ast.GoStmt, *ast.SelectStmt, *ast.FuncLit:
+			ok = false
+		case *ast.UnaryExpr:
+			if x.Op == token.ARROW {
+				ok = false
+			}
+		case *ast.CallExpr:
+			if _, _, isMu := mutexOp(info, x); isMu {
+				return true
+			}
+			if fid, isId := ast.Unparen(x.Fun).(*ast.Ident); isId {
+				if _, isB := info.Uses[fid].(*types.Builtin); isB {
+					return true
+				}
+			}
+			if tv, has := info.Types[x.Fun]; has && tv.IsType() {
+				return true
+			}
+			fn := Callee(info, x)
+			if fn == nil || fn.Pkg() == nil {
+				ok = false
+				return true
+			}
+			switch fn.Pkg().Path() {
+			case "time", "strings":
+				return true
+			}
+			if !leafStoreAccessor(p, p.FuncOf(fn), depth-1) {
+				ok = false
+			}
+		}
+		return ok
+	})
+	return ok
 }
